@@ -3174,7 +3174,19 @@ impl PeerConnection {
 
     pub async fn recv(&self) -> Option<PeerConnectionEvent> {
         let mut rx = self.inner.event_rx.lock().await;
-        rx.recv().await
+        let mut state = self.inner.peer_state.subscribe();
+        loop {
+            if let Ok(ev) = rx.try_recv() {
+                return Some(ev);
+            }
+            if *state.borrow_and_update() == PeerConnectionState::Closed {
+                return None;
+            }
+            tokio::select! {
+                ev = rx.recv() => return ev,
+                _ = state.changed() => {}
+            }
+        }
     }
 
     /// Initialize a T.38 fax endpoint for the Image transceiver.
